@@ -9,7 +9,7 @@ from ..core import sampled_from  # noqa: E402
 
 from .. import build, meshgen, writers
 from .. import sphere as S
-from ..core import Failure
+from ..core import Failure, need
 
 ID = "C11"
 RULE = (
@@ -165,11 +165,11 @@ def run_case(case, ctx):
 
         getter = g.get_ball_tree if tree_t == "ball" else g.get_kd_tree
         if st_.get("via_setter") and st_["via_setter"] != kind:
-            tree = getter(coordinates=st_["via_setter"], coordinate_system=system, distance_metric=metric, reconstruct=st_["reconstruct"])
+            tree = need(getter(coordinates=st_["via_setter"], coordinate_system=system, distance_metric=metric, reconstruct=st_["reconstruct"]), "query", f"Grid.get_{tree_t}_tree")
             tree.coordinates = kind
             site += "+setter"
         else:
-            tree = getter(coordinates=kind, coordinate_system=system, distance_metric=metric, reconstruct=st_["reconstruct"])
+            tree = need(getter(coordinates=kind, coordinate_system=system, distance_metric=metric, reconstruct=st_["reconstruct"]), "query", f"Grid.get_{tree_t}_tree")
         ctx.ev("tree_reflects_request")
         got_cfg = (getattr(tree, "coordinates", None), getattr(tree, "coordinate_system", None), getattr(tree, "distance_metric", None))
         if got_cfg != (kind, system, metric):
